@@ -33,6 +33,9 @@ type seqOpts struct {
 	Evict     float64 // probability of an L1 eviction step between commands
 	Advance   float64 // probability of a clock advance (non-chunked stacks only)
 	MaxChunks int
+	AdvChunk  bool // advance the clock on chunked stacks too
+	TwoTier   bool // only the L1/L2 configurations
+	Probe     func(sc Scenario, i int, st *Stack, d *Driver, ob StepObs) []Violation
 }
 
 // genSequence builds a scenario of sequential commands over 1-3 connections (main and batch port,
@@ -45,19 +48,33 @@ func genSequence(g *Gen, id string, cfg StackCfg, o seqOpts) Scenario {
 	}
 	now := time.Now().Unix()
 	for i := 0; i < o.Steps; i++ {
-		if o.Evict > 0 && g.r.Float64() < o.Evict {
-			key := g.Key()
-			if cfg.L1 == "chunked" {
-				// evict an arbitrary backend entry of the key: its metadata or one of its chunks
-				if g.r.Intn(2) == 0 {
-					key = append(append([]byte{}, key...), []byte("-meta")...)
-				} else {
-					key = append(append([]byte{}, key...), []byte(fmt.Sprintf("-%d", g.r.Intn(3)))...)
+		if o.Evict > 0 && cfg.Orca == "l1l2" && g.r.Float64() < o.Evict {
+			// (only a cache in front of L2 may lose entries: in L1-only mode L1 is the store of record)
+			// lose a random subset of the key alphabet (sometimes all of it)
+			var ks [][]byte
+			switch g.r.Intn(5) {
+			case 0:
+				for _, k := range keyAlphabet {
+					ks = append(ks, []byte(k))
 				}
+			case 1:
+				ks = append(ks, g.Key(), g.Key(), g.Key())
+			default:
+				ks = append(ks, g.Key())
 			}
-			sc.Steps = append(sc.Steps, Step{Kind: "evict", Tier: "L1", Key: key})
+			for _, key := range ks {
+				if cfg.L1 == "chunked" {
+					// evict an arbitrary backend entry of the key: its metadata or one of its chunks
+					if g.r.Intn(2) == 0 {
+						key = append(append([]byte{}, key...), []byte("-meta")...)
+					} else {
+						key = append(append([]byte{}, key...), []byte(fmt.Sprintf("-%d", g.r.Intn(3)))...)
+					}
+				}
+				sc.Steps = append(sc.Steps, Step{Kind: "evict", Tier: "L1", Key: key})
+			}
 		}
-		if o.Advance > 0 && cfg.L1 != "chunked" && cfg.L1 != "inmem" && g.r.Float64() < o.Advance {
+		if o.Advance > 0 && (cfg.L1 != "chunked" || o.AdvChunk) && cfg.L1 != "inmem" && g.r.Float64() < o.Advance {
 			secs := int64(1 + g.r.Intn(4))
 			if g.r.Intn(4) == 0 {
 				secs = int64(100 + g.r.Intn(200000))
@@ -119,9 +136,13 @@ func runSequences(rep *Report, tier string, seed int64, perCfg int, o seqOpts, a
 	defer d.Close()
 	distinct := map[string]bool{}
 	for ci, cfg := range fullStackConfigs(tier) {
+		if o.TwoTier && cfg.Orca != "l1l2" {
+			continue
+		}
 		for n := 0; n < perCfg; n++ {
 			g := &Gen{r: rand.New(rand.NewSource(seed*1000003 + int64(ci)*7919 + int64(n)))}
 			sc := genSequence(g, fmt.Sprintf("%s-%d-%d", rep.Property, ci, n), cfg, o)
+			sc.Probe = o.Probe
 			var out Outcome
 			for attempt := 0; attempt < 3; attempt++ {
 				out = RunScenarioO(d, sc, 3*time.Second, true)
@@ -156,6 +177,13 @@ func runSequences(rep *Report, tier string, seed int64, perCfg int, o seqOpts, a
 					Signature: classifyMiss(sc, m.Step, obs),
 					Replay:    map[string]interface{}{"scenario": describeScenario(sc), "step": m.Step, "driver_script": out.Script, "impl_reply": canonN(4096, obs[m.Step].Out)},
 				})
+			}
+			for _, v := range out.Probed {
+				if m, ok := v.Replay.(map[string]interface{}); ok {
+					m["scenario"] = describeScenario(sc)
+					m["driver_script"] = out.Script
+				}
+				rep.Violations = append(rep.Violations, v)
 			}
 			if div != nil {
 				rep.Divergences = append(rep.Divergences, div)
